@@ -2,6 +2,7 @@ package props
 
 import (
 	"bytes"
+	"encoding/json"
 	"fmt"
 	"math"
 	"math/big"
@@ -354,6 +355,24 @@ func buildEntryPoints() []entryPoint {
 		d3.Scan(int64(r.U64()))
 		d3.Scan(math.Float64frombits(r.U64()))
 		d3.Scan(struct{}{})
+		// every dynamic type a driver or a caller may hand over: whatever Scan
+		// accepts must leave a well-formed value that the other entry points can use
+		bv := bigValue(r)
+		for _, src := range []interface{}{bv, *bv, new(big.Float).SetInt(bv), new(big.Rat).SetInt(bv), new(apd.BigInt).SetMathBigInt(bv), int(r.Range(-99, 99)), int32(r.Range(-99, 99)),
+			int16(-7), int8(-7), uint(7), uint64(r.U64()), uint32(7), float32(-2.5), true, []byte(nil), "", (*big.Int)(nil), json.Number(bv.String()), []string{"1"}} {
+			var ds apd.Decimal
+			if err := ds.Scan(src); err == nil {
+				if werr := br.WellFormed(&ds); werr != nil {
+					t.Fail("ill-formed-result", map[string]interface{}{"op": fmt.Sprintf("Scan(%T)", src), "why": werr.Error()})
+					continue
+				}
+				var out apd.Decimal
+				c1 := apd.Context{Precision: 1, MaxExponent: 100000, MinExponent: -100000, Rounding: apd.RoundUp}
+				c1.Round(&out, &ds)
+				c1.Add(&out, &ds, &ds)
+				_ = ds.String()
+			}
+		}
 	})
 	add("Decimal.Text/String/Append/Format", func(t *mon.T, r *rng.R, extreme bool) {
 		c := hostileContext(r)
